@@ -31,7 +31,7 @@ REQUIRED_COUNTERS = {"blocked_threads_checked": {"quick": 300, "thorough": 5000}
                      "inspect_frame_snapshots_checked": {"quick": 20000, "thorough": 400000},
                      "inspect_frame_snapshots_of_executing_frames": {"quick": 2000, "thorough": 40000},
                      "rejections_observed": {"quick": 2, "thorough": 20},
-                     "stress_extractions": {"quick": 2000, "thorough": 50000},
+                     "stress_extractions": {"quick": 800, "thorough": 20000},
                      "stress_distinct_positions": {"quick": 20, "thorough": 40}}
 SHARD_TIMEOUT = {"quick": 400, "thorough": 5400}
 INTERPS = ["3.12", "3.11", "3.10", "3.9"]
